@@ -300,8 +300,7 @@ impl SchemaConverter {
         if let Some(additional) = schema.get("additionalProperties") {
             if additional.is_object() {
                 let value_ty = self.resolve_type(walker, additional);
-                let index_ty = format!("[string] : {}", value_ty);
-                emitter.write_field(&index_ty, "", Some("Additional properties"));
+                emitter.write_index_field("string", &value_ty, Some("Additional properties"));
             }
         }
 
@@ -786,6 +785,21 @@ mod tests {
         assert!(output.contains("---@field d any\n"));
         assert!(output.contains("---@alias schema.Numbers\n---| any\n"));
         assert!(output.contains("---@alias schema.Nothing\n---| any\n"));
+    }
+
+    #[test]
+    fn test_additional_properties_index_signature() {
+        let schema = json!({
+            "title": "Config",
+            "type": "object",
+            "properties": {
+                "name": { "type": "string" }
+            },
+            "additionalProperties": { "type": "integer" }
+        });
+
+        let output = converter().convert(&schema).annotation_text;
+        assert!(output.contains("--- Additional properties\n---@field [string] integer\n"));
     }
 
     #[test]
